@@ -429,10 +429,11 @@ FixedVArray<T>::setitem_scalar_mask (const FixedArray<int>& mask, const FixedArr
 
     if (_indices)
     {
+        // The mask may have the masked or the unmasked length.
+        const bool maskedSpace = (size_t) mask.len() == len;
         for (size_t i = 0; i < len; ++i)
         {
-            // We don't need to actually look at 'mask' because
-            // match_dimensions has already forced some expected condition.
+            if (!mask[maskedSpace ? i : raw_ptr_index(i)]) continue;
             std::vector<T> &d =_ptr[raw_ptr_index(i)*_stride];
             if (data.len() != static_cast<Py_ssize_t>(d.size()))
                 throw std::invalid_argument("FixedVArray::setitem: length of data does not match length of array element");
@@ -728,11 +729,12 @@ FixedVArray<T>::SizeHelper::setitem_scalar_mask (const FixedArray<int>& mask, si
 
     if (_a._indices)
     {
+        // The mask may have the masked or the unmasked length.
+        const bool maskedSpace = (size_t) mask.len() == len;
         for (size_t i = 0; i < len; ++i)
         {
-            // We don't need to actually look at 'mask' because
-            // match_dimensions has already forced some expected condition.
-            _a._ptr[_a.raw_ptr_index(i)*_a._stride].resize(size);
+            if (mask[maskedSpace ? i : _a.raw_ptr_index(i)])
+                _a._ptr[_a.raw_ptr_index(i)*_a._stride].resize(size);
         }
     }
     else
